@@ -1,6 +1,8 @@
 \* non-vacuity control for EncloseTruncates: RoundTrip itself must be violated
 \* RoundTrip holds; the strict variant (RoundTrip) must be violated.
 CONSTANTS
+  FixExtractOverflow = TRUE
+  FixFramerError = TRUE
   Lfls = {1}
   HostLfls = {1}
   Endians = {TRUE, FALSE}
